@@ -113,6 +113,20 @@ type World struct {
 	recN     int
 	Restarts int
 	Live     bool
+	// CatchUp: when set, the set and claim caches catch up (pending events are delivered)
+	// right after a controller call on that resource failed, i.e. while the reconcile is
+	// still running - what a live informer does. Pod events are never delivered
+	// mid-reconcile so that the recorded snapshot stays the one the reconcile listed.
+	CatchUp bool
+}
+
+func (w *World) afterCall(c *simapi.Call) {
+	if !w.CatchUp || w.Live || c.Rec == 0 || c.OK() {
+		return
+	}
+	if c.Res == simapi.Sets || c.Res == simapi.PVCs {
+		w.Deliver(c.Res, -1)
+	}
 }
 
 var cachedRes = []simapi.Res{simapi.Sets, simapi.Pods, simapi.PVCs, simapi.Revisions}
@@ -122,6 +136,7 @@ var cachedRes = []simapi.Res{simapi.Sets, simapi.Pods, simapi.PVCs, simapi.Revis
 func New(srv *simapi.Server) *World {
 	w := &World{Srv: srv, pending: map[simapi.Res][]pendingEv{}}
 	srv.OnWrite = w.onWrite
+	srv.AfterCall = w.afterCall
 	w.build()
 	return w
 }
@@ -160,6 +175,7 @@ func (w *World) Reset() {
 	w.Q = NewVQueue()
 	w.Ctl.VerifSetQueue(w.Q)
 	w.recN = 0
+	w.CatchUp = false
 }
 
 // Restart emulates a process restart: a new controller object, empty caches
